@@ -287,7 +287,7 @@ fn one_step(ctx: &mut Ctx, rng: &mut Rng, pool: &[Live]) -> (String, StepOut) {
 }
 
 pub fn run(ctx: &mut Ctx) {
-    let n = ctx.budget(2_500, 120_000);
+    let n = ctx.budget(40_000, 1_000_000);
     for _ in 0..n {
         if !ctx.next_case() {
             return;
